@@ -174,6 +174,52 @@ Proof.
   rewrite (base_redirect cfg s Er). apply opt_is_some.
 Qed.
 
+(* ---------- url.Values.Set keeps every key single-valued ---------- *)
+Lemma count_pset k k' v l :
+  count_key k (pset k' v l)
+  = if String.eqb k' k then (if count_key k l =? 0 then 1 else count_key k l) else count_key k l.
+Proof.
+  unfold count_key. induction l as [|[a b] r IH].
+  - cbn. destruct (String.eqb k' k); reflexivity.
+  - cbn [pset]. destruct (String.eqb a k') eqn:Ea.
+    + apply String.eqb_eq in Ea. subst a. cbn [filter fst]. destruct (String.eqb k' k); reflexivity.
+    + cbn [filter fst]. destruct (String.eqb a k) eqn:Eak.
+      * cbn [List.length]. rewrite IH. destruct (String.eqb k' k) eqn:Ek; [|reflexivity].
+        apply String.eqb_eq in Ek, Eak. subst. rewrite String.eqb_refl in Ea. discriminate.
+      * exact IH.
+Qed.
+
+Definition uniq (l : params) : Prop := forall k, count_key k l <= 1.
+
+Lemma uniq_pset k' v l : uniq l -> uniq (pset k' v l).
+Proof.
+  intros Hu k. rewrite count_pset. specialize (Hu k).
+  destruct (String.eqb k' k); [destruct (count_key k l =? 0)|]; lia.
+Qed.
+
+Lemma uniq_fold ex : forall l, uniq l -> uniq (fold_left (fun p kv => pset (fst kv) (snd kv) p) ex l).
+Proof. induction ex as [|e ex IH]; intros l Hu; [exact Hu|]. cbn [fold_left]. apply IH. now apply uniq_pset. Qed.
+
+Lemma uniq_auth_params cfg s ch : uniq (auth_params cfg s ch).
+Proof.
+  unfold auth_params.
+  assert (H0 : uniq [("response_type", "code"); ("client_id", c_client cfg)]).
+  { intro k. unfold count_key. cbn [filter fst].
+    destruct (String.eqb "response_type" k) eqn:E1, (String.eqb "client_id" k) eqn:E2; cbn; try lia.
+    apply String.eqb_eq in E1, E2. subst k. discriminate. }
+  assert (H1 : uniq (if is_empty (c_redirect cfg) then [("response_type", "code"); ("client_id", c_client cfg)]
+                     else pset "redirect_uri" (c_redirect cfg) [("response_type", "code"); ("client_id", c_client cfg)])).
+  { destruct (is_empty (c_redirect cfg)); [exact H0|now apply uniq_pset]. }
+  match goal with |- uniq (match ch with Some _ => _ | None => ?X end) => assert (H2 : uniq X) end.
+  { apply uniq_fold. destruct (is_empty s); [|apply uniq_pset]; destruct (c_scopes cfg); try apply uniq_pset; exact H1. }
+  destruct ch; [now do 2 apply uniq_pset|exact H2].
+Qed.
+
+Lemma single_valued_auth_params cfg s ch : single_valued (auth_params cfg s ch) = true.
+Proof.
+  unfold single_valued. apply forallb_forall. intros k _. apply Nat.leb_le. apply uniq_auth_params.
+Qed.
+
 (* ---------- rp.AuthURL without options, at any time ---------- *)
 Lemma probe_is_base cfg : probe_params cfg = base_params (plain_cfg cfg) probe_state.
 Proof. reflexivity. Qed.
@@ -201,7 +247,7 @@ Section Proofs.
     auth_ok H cfg s (login_cookies cfg s v) (c_auth cfg)
             (auth_params cfg s (if c_pkce cfg then Some (H v) else None)) = true.
   Proof.
-    unfold auth_ok. repeat (apply andb_true_iff; split).
+    unfold auth_ok. rewrite single_valued_auth_params, andb_true_r. repeat (apply andb_true_iff; split).
     - unfold login_cookies, has_cmd, state_cookie. cbn [existsb]. now rewrite cmd_eqb_refl_mac.
     - apply String.eqb_refl.
     - destruct (extra_ok cfg) eqn:He; [|reflexivity]. cbn [negb orb].
@@ -282,15 +328,15 @@ Section Proofs.
     c_pkce cfg = true -> op_honest cfg o = true -> Inv j lg ->
     Inv (jar_after j o (respond H cfg j o)) (push_login (respond H cfg j o) lg).
   Proof.
-    intros Hp Hh HI. destruct o as [s0 v0|s0|q ok ap|n c|n|l].
+    intros Hp Hh HI. destruct o as [s0 v0|s0|q ok ap|n c|n|s0 v0 lq|l].
     2:{ exact HI. }
-    5:{ exact HI. }
-    - cbn [respond]. unfold start_login, login_cookies. rewrite Hp.
-      cbn [jar_after ev_cookies push_login jar_apply fold_left jar_apply1 fst snd state_cookie pkce_cookie].
-      intros s v Hs Hv. rewrite !check_set in Hs, Hv.
-      change (String.eqb pkce_name state_name) with false in Hs.
-      rewrite String.eqb_refl in Hs, Hv. unfold k in Hs, Hv. rewrite decode_mac in Hs, Hv.
-      injection Hs as <-. injection Hv as <-. eexists. reflexivity.
+    6:{ exact HI. }
+    1,5: (cbn [respond]; unfold start_login, login_cookies; rewrite Hp;
+      cbn [jar_after ev_cookies push_login jar_apply fold_left jar_apply1 fst snd state_cookie pkce_cookie];
+      intros s v Hs Hv; rewrite !check_set in Hs, Hv;
+      change (String.eqb pkce_name state_name) with false in Hs;
+      rewrite String.eqb_refl in Hs, Hv; unfold k in Hs, Hv; rewrite decode_mac in Hs, Hv;
+      injection Hs as <-; injection Hv as <-; eexists; reflexivity).
     - cbn [respond]. destruct (callback_shape j q ok) as (h & r & cs & E & Hd). rewrite E.
       cbn [push_login jar_after ev_cookies]. destruct ap; [|assumption].
       intros s v Hs Hv. apply check_apply_dels in Hs, Hv; auto.
@@ -334,9 +380,10 @@ Section Proofs.
     Forall is_redirect lg -> Forall (fun t => Forall is_redirect (t_logins t)) (trace H cfg j lg ops).
   Proof.
     induction ops as [|o ops IH]; intros j lg Hl; cbn [trace]; constructor; [exact Hl|].
-    apply IH. destruct o as [s v|s|q ok ap|n c|n|l]; cbn [respond push_login]; auto.
+    apply IH. destruct o as [s v|s|q ok ap|n c|n|s v lq|l]; cbn [respond push_login]; auto.
     - unfold start_login. cbn [push_login]. constructor; [|exact Hl]. exists s, v. reflexivity.
     - destruct (callback_shape j q ok) as (h & r & cs & E & _). now rewrite E.
+    - unfold start_login. cbn [push_login]. constructor; [|exact Hl]. exists s, v. reflexivity.
   Qed.
 
   Lemma jar_honest_inv j : jar_honest cfg j = true -> Inv j [].
@@ -383,10 +430,11 @@ Section Proofs.
   Proof.
     induction ops as [|o ops IH]; intros j lg HI Hh; [reflexivity|].
     cbn [trace map snd spec_run]. apply andb_true_iff; split.
-    - destruct o as [s v|s|q ok ap|n c|n|l]; cbn [respond spec_step]; try reflexivity.
+    - destruct o as [s v|s|q ok ap|n c|n|s v lq|l]; cbn [respond spec_step]; try reflexivity.
       + apply auth_ok_model.
       + pose proof (cb_ok_model hon j lg q ok HI) as Hc.
         destruct (callback cfg j q ok); try contradiction. exact Hc.
+      + apply auth_ok_model.
       + apply probe_ok.
     - apply IH.
       + intros Hn Hp. specialize (Hh Hn). cbn in Hh. apply andb_true_iff in Hh as [H1 _].
@@ -613,7 +661,8 @@ Lemma api_inert_trace : forall H cfg ops j lg,
   = filter (fun e => negb (is_probe e)) (map (fun t => snd t) (trace H cfg j lg ops)).
 Proof.
   intros H cfg ops. induction ops as [|o ops IH]; intros j lg; [reflexivity|].
-  destruct o as [s v|s|q ok ap|n c|n|l]; cbn [filter is_api negb trace map snd respond].
+  destruct o as [s v|s|q ok ap|n c|n|s v lq|l]; cbn [filter is_api negb trace map snd respond].
+  6:{ unfold start_login. cbn [is_probe negb filter]. f_equal. apply IH. }
   - unfold start_login. cbn [is_probe negb filter]. f_equal. apply IH.
   - cbn [is_probe negb filter]. f_equal. apply IH.
   - destruct (callback_shape cfg j q ok) as (h & r & cs & E & _). rewrite E.
@@ -645,3 +694,14 @@ Proof.
   - apply (base_scope (plain_cfg cfg)).
   - apply base_state.
 Qed.
+
+(* ---------- the login request's own parameters ---------- *)
+Lemma login_query_irrelevant : forall H cfg j s v lq,
+  respond H cfg j (OStartQ s v lq) = respond H cfg j (OStart s v)
+  /\ jar_after j (OStartQ s v lq) (respond H cfg j (OStartQ s v lq))
+     = jar_after j (OStart s v) (respond H cfg j (OStart s v)).
+Proof. intros. split; reflexivity. Qed.
+
+Lemma auth_url_single_valued : forall H cfg s v k,
+  exists cs ps, start_login H cfg s v = EvAuth cs (c_auth cfg) ps /\ count_key k ps <= 1.
+Proof. intros. do 2 eexists. split; [reflexivity|]. apply uniq_auth_params. Qed.
